@@ -19,6 +19,7 @@ func init() {
 		ruleD4(c, "C14.D4")
 		ruleD5(c, "C14.D5")
 		ruleD6(c, "C14.D6")
+		ruleSlot(c, "C14.D7")
 	}
 }
 
